@@ -3,6 +3,7 @@ CONSTANTS
   Locked = TRUE
   Bodies <- BodiesT
   Modes <- AllModes
+  Seconds <- SecondsQ
   TickMs <- Ticks2
   MaxTicks = 8
   MaxPre = 0
